@@ -24,6 +24,7 @@ class Scalar (K : Type) where
   re : K → K
   zero : K
   one : K
+  ofNat : Nat → K
   /-- `x ** 0.5` of a real number (the real part is used) -/
   sqrtRe : K → K
   /-- `exp(-1j * w_k)` on scipy's `freqz` grid: `w_k = k * (π / n)` (`whole = false`) or
@@ -89,6 +90,7 @@ instance : Scalar CF where
   re := fun z => ⟨z.re, 0.0⟩
   zero := ⟨0.0, 0.0⟩
   one := ⟨1.0, 0.0⟩
+  ofNat := fun n => ⟨n.toFloat, 0.0⟩
   sqrtRe := fun z => ⟨Float.sqrt z.re, 0.0⟩
   phasor := CF.phasor
 
